@@ -109,8 +109,8 @@ ODATA_FUNCTION_RETURN_ARGS = {"concat": {0, 1}, "substring": {0}}
 
 # parameter sorts: S string, N number, T temporal, D duration, B boolean, G geo, C collection, X any
 ODATA_FUNCTION_PARAMS: Dict[str, List[str]] = {
-    "concat": ["SC", "SC"], "contains": ["SC", "S"], "endswith": ["SC", "S"], "startswith": ["SC", "S"],
-    "indexof": ["SC", "S"], "length": ["SC"], "substring": ["SC", "N", "N"], "matchesPattern": ["S", "S"],
+    "concat": ["SC", "SC"], "contains": ["SC", "SC"], "endswith": ["SC", "SC"], "startswith": ["SC", "SC"],
+    "indexof": ["SC", "SC"], "length": ["SC"], "substring": ["SC", "N", "N"], "matchesPattern": ["S", "S"],
     "tolower": ["S"], "toupper": ["S"], "trim": ["S"],
     "year": ["T"], "month": ["T"], "day": ["T"], "hour": ["T"], "minute": ["T"], "second": ["T"],
     "fractionalseconds": ["T"], "totalseconds": ["D"], "date": ["T"], "time": ["T"], "totaloffsetminutes": ["T"],
